@@ -28,7 +28,9 @@ A_COMMON = [
     "A-ACYCLIC: the invalidated_by dependency graph is acyclic (termination of the recursive invalidation is not proved)",
     "A-LEAF / A-RECV: instances of (subclasses of) immutable built-in scalar types (int, float, str, bytes, bool, module) carry no mutable "
     "state, so handing them on uncopied shares nothing mutable; spec classes and receivers of mutate_attr do not derive from such types",
-    "prepare_attr_value is used through an assumed pure contract in the core proofs",
+    "prepare_attr_value is used through an assumed pure contract in the core proofs; Attr.lookup_default_value through the contract LookupDefaultAssumed "
+    "(discharged against its body in the sub-check LookupDefault of C05/C08/C09: DV / NODEF defined by the MRO walk; assumed there: cls.mro(), class "
+    "namespaces, inspect.isdatadescriptor, A-CTOR for default_factory)",
     "mutate_value: A-PROXY (the lazy proxy's thunk is a pure read), A-CTOR (constructors return a new object or an atom), A-TRANSFORM (a transform "
     "returns its argument, a new object or an atom), _get_function_args assumed (inspect.signature); scope A-SHARED: the value updated through "
     "keywords is not a do_not_copy instance, function or module (those are updated in place by design); keyword names are never the "
